@@ -32,6 +32,8 @@ Has(e, c) == \E i \in 1..Len(e.chk) : e.chk[i] = c
 
 \* evaluates to cond; prints the clause name and event index when it is false
 Chk(name, idx, cond) == cond \/ (PrintT(<<"FAIL", name, idx>>) /\ FALSE)
+\* diagnostic only: names the conjunct of a clause that failed (printed once per failing evaluation)
+Dt(name, cond) == cond \/ (PrintT(<<"DETAIL", name>>) /\ FALSE)
 
 \* the same, and when the clause fails additionally reports whether the signature `fcond` of the listed
 \* finding `fname` holds for this event (known_findings.json matches on that marker)
@@ -325,6 +327,9 @@ SimplifyOK(e, idx) ==
   /\ Has(e, "ARGS") => Chk("ARGS", idx, e.argsSame)
   /\ Has(e, "DET") => Chk("DET", idx, e.det)
   /\ Has(e, "C16") => Chk("C16", idx, SimplifyOK16(e))
+  \* the same call made on the path translated by e.off (anywhere inside +-2^52): e.path / e.res are in base
+  \* coordinates, and every condition of SimplifyOK16 is an exact, translation-invariant rational comparison
+  /\ Has(e, "C13") => Chk("C13", idx, SimplifyOK16(e))
 
 (***************************************************************************)
 (* The four clip types on one input (C19).  In(x, p): p is in the region   *)
@@ -615,16 +620,16 @@ C09OK(e) ==
   LET subj == ScalePaths(e.subj, e.k)  clip == ScalePaths(e.clip, e.k)  open == ScalePaths(e.open, e.k)
       FarIn(p) == FarClosed(p, subj, Band4) /\ FarClosed(p, clip, Band4) IN
   \* open paths never appear in, or alter, the closed solution
-  /\ \A n \in 1..Len(e.probes) : RegionOKAt(e.ct, e.fr, subj, clip, e.sol, e.probes[n])
-  /\ \A n \in 1..Len(e.tree) : Len(e.tree[n].poly) >= 3 /\ Area2(e.tree[n].poly) # 0
+  /\ Dt("C09.closed-region", \A n \in 1..Len(e.probes) : RegionOKAt(e.ct, e.fr, subj, clip, e.sol, e.probes[n]))
+  /\ Dt("C09.tree", \A n \in 1..Len(e.tree) : Len(e.tree[n].poly) >= 3 /\ Area2(e.tree[n].poly) # 0)
   \* the open solution consists of sub-polylines of the subject lines
-  /\ \A j \in 1..Len(e.solOpen) :
+  /\ \A j \in 1..Len(e.solOpen) : Dt(<<"C09.subpolyline", j>>,
        /\ Len(e.solOpen[j]) >= 2
-       /\ \E i \in 1..Len(open) : FollowsInOrderR(open[i], e.solOpen[j], 8) \/ FollowsInOrderR(RevPath(open[i]), e.solOpen[j], 8)
+       /\ \E i \in 1..Len(open) : FollowsInOrderR(open[i], e.solOpen[j], 8) \/ FollowsInOrderR(RevPath(open[i]), e.solOpen[j], 8))
   \* coverage
   /\ \A n \in 1..Len(e.onProbes) :
        LET p == e.onProbes[n] IN
-       FarIn(p) => IF OpenExpected(e.ct, e.fr, subj, clip, p) THEN NearOpen(p, e.solOpen, 12) ELSE FarOpen(p, e.solOpen, 6)
+       Dt(<<"C09.coverage", p>>, FarIn(p) => IF OpenExpected(e.ct, e.fr, subj, clip, p) THEN NearOpen(p, e.solOpen, 12) ELSE FarOpen(p, e.solOpen, 6))
 
 OpenOpOK(e, idx) ==
   /\ Chk("OUT", idx, OutOK(e))
